@@ -426,9 +426,6 @@ def run(ctx):
     confirm(ctx, vh, findings)
     if ctx.tier == "thorough":
         self_test(ctx, vh, notes)
-    missing = [t for t in REQUIRED if ex.get(t, 0) == 0]
-    if missing:
-        raise core.Infra("vacuity guard: no produced file exercised %s" % missing)
     ctx.extra.update(notes)
     ctx.extra["exercised_lines"] = dict(sorted(ex.items()))
     ctx.extra["lines_judged"] = nlines
@@ -447,6 +444,12 @@ def run(ctx):
         ctx.sample({"tag": c["tag"], "models": [dict(mesh=m["mesh"], mat=m["mat"], inst=len(m["inst"])) for m in c["models"]],
                     "lights": len(c["lights"])})
     report(ctx, findings)
+    # vacuity guard (a rejected file may hide what it would have exercised: verdicts go first)
+    missing = [t for t in REQUIRED if ex.get(t, 0) == 0]
+    known = {k["signature"] for k in core.load_known() if k.get("property") == PID and k.get("status") == "open"}
+    if missing and all(v["signature"] in known for v in ctx.violations):
+        raise core.Infra("vacuity guard: no produced file exercised %s" % missing)
+    ctx.extra["not_exercised"] = missing
     ctx.assumptions += [
         "the independent reader (harness/gltffam/parse.go) and the source projection (srcproj.go) are faithful",
         "float32 images are compared on IEEE bit patterns; declared min/max are rounded to float32 as glTF 2.0 prescribes",
